@@ -1,7 +1,7 @@
 (* C11 (deprecated entry points) and C12: the legacy API against the current one, over the regenerated records. *)
 From Coq Require Import List NArith ZArith Bool Lia Arith String Ascii ZifyN ZifyNat ZifyBool.
 From O1722 Require Import Sym Bits Host FieldModel FieldProofs Spec SpecProofs AccModel AccProofs FormatChecks
-  LegacyModel LegacySpec LegacyProofs C13Proofs C01Proofs.
+  LegacyModel LegacySpec LegacyProofs NormalProofs C13Proofs C01Proofs.
 From O1722.Generated Require Import Tables.
 Import ListNotations.
 Local Open Scope N_scope.
@@ -29,10 +29,10 @@ Definition chain_init (name:string) (ops:list initop) : init := mkinit name true
 
 Definition init_check (u:unit_model) (t:table) (ls:list legacy) (a:lapi) (s:sformat) (l:legacy) : bool :=
   (linit_fwd_ok l s (extra_setter a s) && (str_empty (la_init_field a) || negb (str_empty (extra_setter a s))) &&
-   is_some (find_init (u_inits u) (sp_init s))) ||
+   is_some (find_init (u_inits u) (sp_init s)) && negb (str_empty (sp_init s))) ||
   match find_legacy ls (la_set a) with
   | Some lset =>
-      String.eqb (l_name lset) (la_set a) &&
+      String.eqb (l_name lset) (la_set a) && str_empty (la_init_field a) &&
       match linit_chain_ops l lset s t, canonical_header s with
       | Some ops, Some h =>
           match init_image cfg u (chain_init (l_name l) ops) (sp_hdr_len s) with
@@ -63,6 +63,8 @@ Definition api_ok (a:lapi) : bool :=
       forallb (fun p => match assoc ms (fst p), assoc (t_enum t) (snd p) with
                         | Some x, Some y => x =? y | _, _ => false end) (la_aliases a) &&
       forallb (fun e => snd e <? 2 ^ 32) (t_enum t) &&
+      forallb (fun f => match assoc (t_enum t) (sf_name f), assoc (t_enum t) (sp_sentinel s) with
+                        | Some i, Some m => i <? m | _, _ => false end) (sp_fields s) &&
       is_some (find_getter (u_getters u) (sp_get_field s)) && is_some (find_setter (u_setters u) (sp_set_field s))
     end
   end.
@@ -104,7 +106,7 @@ Section API.
 
   Definition set_wrapper_ok (s:sformat) (u:unit_model) (t:table) (ls:list legacy) (name:string) : Prop :=
     exists l st maxv pw, find_legacy ls name = Some l /\ find_setter (u_setters u) (sp_set_field s) = Some st /\
-      assoc (t_enum t) (sp_sentinel s) = Some maxv /\
+      assoc (t_enum t) (sp_sentinel s) = Some maxv /\ lset_ok l s t = Some (maxv, pw) /\
       forall pdu f v, f < 2 ^ 32 -> v < 2 ^ N.of_nat pw ->
         run_legacy LD ST cfg u ls l pdu [0; f; v] None =
           if is_none pdu || (maxv <=? f) then Ok (LEinval, pdu, None)
@@ -115,7 +117,8 @@ Section API.
      (followed, for CVF, by the dedicated setter of format_subtype) *)
   Definition init_wrapper_ok (a:lapi) (s:sformat) (u:unit_model) (ls:list legacy) (name:string) : Prop :=
     exists l, find_legacy ls name = Some l /\
-      ((exists i, find_init (u_inits u) (sp_init s) = Some i /\
+      ((exists i, find_init (u_inits u) (sp_init s) = Some i /\ sp_init s <> EmptyString /\
+          str_empty (extra_setter a s) = str_empty (la_init_field a) /\
           (forall x, x < 2 ^ 8 -> run_legacy LD ST cfg u ls l None [0; x] None = Ok (LEinval, None, None)) /\
           forall b x, x < 2 ^ 8 ->
             run_legacy LD ST cfg u ls l (Some b) [0; x] None =
@@ -130,11 +133,11 @@ Section API.
               | OOB q => OOB q | Unmodelled => Unmodelled
               end)
        \/
-       (exists h, canonical_header s = Some h /\
-          run_legacy LD ST cfg u ls l None [0] None = Ok (LEinval, None, None) /\
-          forall old, sp_hdr_len s <= blen old ->
-            exists b', run_legacy LD ST cfg u ls l (Some old) [0] None = Ok (LOk, Some b', None) /\
-                       agrees b' h old (sp_hdr_len s))).
+       (exists h, canonical_header s = Some h /\ str_empty (la_init_field a) = true /\
+          (forall x, x < 2 ^ 8 -> run_legacy LD ST cfg u ls l None [0; x] None = Ok (LEinval, None, None)) /\
+          forall old x, x < 2 ^ 8 -> sp_hdr_len s <= blen old ->
+            exists b', run_legacy LD ST cfg u ls l (Some old) [0; x] None = Ok (LOk, Some b', None) /\
+                       agrees b' h old (sp_hdr_len s) /\ (SpecProofs.normal old -> SpecProofs.normal b'))).
 
   Definition api_correct (a:lapi) : Prop :=
     exists s u t, find_spec all_specs (la_fmt a) = Some s /\ fmt_unit all_units s = Some (u, t) /\
@@ -143,7 +146,10 @@ Section API.
       (la_init a <> EmptyString -> init_wrapper_ok a s u ls (la_init a)) /\
       (* legacy field names *)
       (forall old new, In (old, new) (la_aliases a) ->
-         exists x, In (old, x) (macros_of field_macros (sp_src s)) /\ In (new, x) (t_enum t)).
+         exists x, In (old, x) (macros_of field_macros (sp_src s)) /\ In (new, x) (t_enum t)) /\
+      (* every field's identifier is below the bound the wrappers check *)
+      (forall f idx maxv, In f (sp_fields s) -> assoc (t_enum t) (sf_name f) = Some idx ->
+         assoc (t_enum t) (sp_sentinel s) = Some maxv -> idx < maxv /\ maxv < 2 ^ 32).
 
   Lemma find_spec_in' ss n s : find_spec ss n = Some s -> In s ss.
   Proof.
@@ -158,6 +164,7 @@ Section API.
     destruct (fmt_unit all_units s) as [[u t]|] eqn:Eu; [|discriminate].
     cbv zeta in H. set (ls := legacy_of legacy_units (sp_src s)) in *. set (ms := macros_of field_macros (sp_src s)) in *.
     apply andb_true_iff in H. destruct H as [H Hfs]. apply andb_true_iff in H. destruct H as [H Hfg].
+    apply andb_true_iff in H. destruct H as [H Hidxlt].
     apply andb_true_iff in H. destruct H as [H H32]. apply andb_true_iff in H. destruct H as [H Hal].
     apply andb_true_iff in H. destruct H as [H _]. apply andb_true_iff in H. destruct H as [H Hinit].
     apply andb_true_iff in H. destruct H as [Hget Hset].
@@ -171,7 +178,7 @@ Section API.
                reads_field LD ST cfg u (sp_get_field s) [0; idx] f (sp_hdr_len s)).
     { intros f Hf. destruct (fields_read E s f Hs Hf) as [u0 [t0 [idx [Hu0 [Hi [Hr _]]]]]].
       rewrite Eu in Hu0. inversion Hu0; subst u0 t0. exists idx. split; assumption. }
-    split; [|split; [|split]].
+    split; [|split; [|split; [|split]]].
     - (* get *)
       destruct (find_legacy ls (la_get a)) as [l|] eqn:El; [|discriminate].
       destruct (lget_sound LD ST (ldqE_wire E) (stqE_wire E) cfg u ls l s t Hget Hreads Hsmall) as [maxv [Hmax [Hrej Hfwd]]].
@@ -192,7 +199,7 @@ Section API.
         destruct (a_src a2) as [|i2 pw']; [discriminate|]. destruct i2 as [|[|[|?]]]; try discriminate.
         destruct (String.eqb callee (sp_set_field s) && arg_wide a1 1 32 && arg_wide a2 2 (N.of_nat pw') &&
                   guards_ok 0 mv [0; 2]%nat (l_guards l)); [|discriminate]. inversion Eok; reflexivity. }
-      exists l, st, maxv, pw. split; [exact El|]. split; [exact Est|]. split; [exact Hmax|].
+      exists l, st, maxv, pw. split; [exact El|]. split; [exact Est|]. split; [exact Hmax|]. split; [exact Eok|].
       intros pdu f v Hf Hv. rewrite (Hsnd pdu f v Hf Hv). rewrite Est. reflexivity.
     - (* init *)
       intros Hne. apply orb_true_iff in Hinit. destruct Hinit as [Hinit|Hinit].
@@ -200,28 +207,40 @@ Section API.
       destruct (find_legacy ls (la_init a)) as [l|] eqn:El; [|discriminate].
       exists l. split; [exact El|].
       unfold init_check in Hinit. apply orb_true_iff in Hinit. destruct Hinit as [Hfwd|Hchain].
-      + apply andb_true_iff in Hfwd. destruct Hfwd as [Hfwd Hfi]. apply andb_true_iff in Hfwd. destruct Hfwd as [Hfwd _].
+      + apply andb_true_iff in Hfwd. destruct Hfwd as [Hfwd Hnz]. apply andb_true_iff in Hfwd. destruct Hfwd as [Hfwd Hfi].
+        apply andb_true_iff in Hfwd. destruct Hfwd as [Hfwd Hse].
         pose proof (linit_fwd_sound LD ST (ldqE_wire E) (stqE_wire E) cfg u ls l s _ Hfwd) as Hsnd.
         destruct (find_init (u_inits u) (sp_init s)) as [i|] eqn:Ei; [|discriminate].
         left. exists i. split; [reflexivity|]. split.
+        { intros Hc. unfold str_empty in Hnz. rewrite Hc in Hnz. discriminate. }
+        split.
+        { unfold extra_setter in *. destruct (str_empty (la_init_field a)) eqn:Ee; [reflexivity|].
+          cbn [orb] in Hse. apply negb_true_iff in Hse. exact Hse. }
+        split.
         * intros x Hx. rewrite (Hsnd None x Hx). reflexivity.
         * intros b x Hx. rewrite (Hsnd (Some b) x Hx). reflexivity.
       + destruct (find_legacy ls (la_set a)) as [lset|] eqn:Els; [|discriminate].
-        apply andb_true_iff in Hchain. destruct Hchain as [Hname Hchain]. apply String.eqb_eq in Hname.
+        apply andb_true_iff in Hchain. destruct Hchain as [Hname Hchain]. apply andb_true_iff in Hname. destruct Hname as [Hname Hnofield].
+        apply String.eqb_eq in Hname.
         destruct (linit_chain_ops l lset s t) as [ops|] eqn:Eops; [|discriminate].
         destruct (canonical_header s) as [h|] eqn:Eh; [|discriminate].
         destruct (init_image cfg u (chain_init (l_name l) ops) (sp_hdr_len s)) as [c|] eqn:Eimg; [|discriminate].
         apply list_eqb_eq in Hchain. subst c.
         assert (Hfind : find_legacy ls (l_name lset) = Some lset) by (rewrite Hname; exact Els).
-        destruct (linit_chain_sound LD ST (ldqE_wire E) (stqE_wire E) cfg u ls l lset s t ops Eops Hfind) as [Hnull Hrun].
+        pose proof (linit_chain_sound LD ST (ldqE_wire E) (stqE_wire E) cfg u ls l lset s t ops Eops Hfind) as Hch.
         pose proof (init_image_sound LD ST (ldqE_wire E) (stqE_wire E) cfg u _ _ h Eimg) as [_ Himg].
-        right. exists h. split; [reflexivity|]. split; [exact Hnull|]. intros old Hold.
-        destruct (Himg old Hold) as [b' [Hr Hag]]. exists b'. split; [|exact Hag].
-        rewrite Hrun. unfold run_init, chain_init in Hr. cbn [i_ops] in Hr. rewrite Hr. reflexivity.
+        right. exists h. split; [reflexivity|]. split; [exact Hnofield|]. split; [intros x Hx; apply (Hch x Hx)|]. intros old x Hx Hold.
+        destruct (Himg old Hold) as [b' [Hr Hag]]. exists b'. split; [|split; [exact Hag|]].
+        * destruct (Hch x Hx) as [_ Hrun].
+          rewrite Hrun. unfold run_init, chain_init in Hr. cbn [i_ops] in Hr. rewrite Hr. reflexivity.
+        * apply (run_init_normal LD ST (stqE_wire E) cfg _ _ _ _ Hr).
     - (* aliases *)
       intros old new Hin. rewrite forallb_forall in Hal. specialize (Hal _ Hin). cbn [fst snd] in Hal.
       destruct (assoc ms old) as [x|] eqn:E1; [|discriminate]. destruct (assoc (t_enum t) new) as [y|] eqn:E2; [|discriminate].
       apply N.eqb_eq in Hal. subst y. exists x. split; apply assoc_in; assumption.
+    - intros f idx maxv Hf Hi Hm. rewrite forallb_forall in Hidxlt. specialize (Hidxlt f Hf). rewrite Hi, Hm in Hidxlt.
+      apply N.ltb_lt in Hidxlt. split; [exact Hidxlt|].
+      rewrite forallb_forall in H32. specialize (H32 _ (assoc_in _ _ _ Hm)). apply N.ltb_lt in H32. exact H32.
   Qed.
 End API.
 
